@@ -3,6 +3,7 @@ package worlds
 import (
 	"bytes"
 	"fmt"
+	"strings"
 	"sync"
 	"time"
 
@@ -42,6 +43,9 @@ type LifePlan struct {
 	DiskOpenLat  time.Duration `json:"disk_open_lat,omitempty"`
 	// WriteErrAt > 0: the n-th data write fails with ENOSPC/EIO (injected disk fault).
 	WriteErrAt int `json:"write_err_at,omitempty"`
+	// OpenErrAt > 0: the n-th open of a data file fails once (the allocation of that start ends
+	// with an error, possibly after it has already recreated files that were missing).
+	OpenErrAt int `json:"open_err_at,omitempty"`
 	// NoTruth: skip the C04 truthfulness monitor (the crash world: a run must reach its crash).
 	NoTruth bool `json:"no_truth,omitempty"`
 	// CrashAtWrite / CrashPhase: C05 — take crash snapshots at these write gates.
@@ -60,6 +64,8 @@ type lifeWorld struct {
 	tor    *torrent.Torrent
 	dir    string
 	extras []*PeerActor
+	// open-error fault aimed at an allocation that follows a deletion (see OnOpen)
+	openErrArmed, armedStart, sawMissing bool
 	seed   *PeerActor
 
 	mu             sync.Mutex
@@ -259,6 +265,45 @@ func RunLifecycle(env *Env, plan *LifePlan) {
 		return simfs.Fault{}
 	}
 	installDiskOracle(fs, T, w.dir, nil)
+	if plan.OpenErrAt > 0 {
+		opens := 0
+		prevOpen := fs.OnOpen
+		fs.OnOpen = func(p string, flag int) error {
+			if strings.HasPrefix(p, w.dir+"/") {
+				w.mu.Lock()
+				opens++
+				n, quiet := opens, w.noFaults
+				armed := w.armedStart
+				w.mu.Unlock()
+				if n == plan.OpenErrAt && !quiet && plan.OpenErrAt%2 == 0 {
+					simrt.Count("fault.disk.open_error", 1)
+					return fmt.Errorf("input/output error")
+				}
+				if armed && !quiet && plan.OpenErrAt%2 == 1 {
+					// aimed: the first existing file that is opened after a missing one was
+					// recreated by the same allocation
+					_, exists := fs.Get(p)
+					w.mu.Lock()
+					fire := false
+					if !exists {
+						w.sawMissing = true
+					} else if w.sawMissing {
+						fire = true
+						w.armedStart, w.sawMissing = false, false
+					}
+					w.mu.Unlock()
+					if fire {
+						simrt.Count("fault.disk.open_error_after_recreate", 1)
+						return fmt.Errorf("input/output error")
+					}
+				}
+			}
+			if prevOpen != nil {
+				return prevOpen(p, flag)
+			}
+			return nil
+		}
+	}
 
 	// the honest seed
 	sutAddr := func() string {
@@ -372,6 +417,11 @@ func (w *lifeWorld) doCmd(c Cmd, next time.Duration, lst *PeerActor) bool {
 		// ("a verification request ends with the torrent stopped"): no effect is demanded then.
 		pre := w.stats()
 		w.mu.Lock()
+		// the aimed open error applies to the allocation of the first start after a deletion
+		w.armedStart, w.sawMissing = w.openErrArmed && pre.Status == torrent.Stopped, false
+		if pre.Status == torrent.Stopped {
+			w.openErrArmed = false
+		}
 		verifying := w.verifyInFlight
 		if pre.Status == torrent.Stopped && verifying && simrt.Now()-w.verifyAt > time.Second {
 			w.verifyInFlight, verifying = false, false
@@ -597,6 +647,11 @@ func (w *lifeWorld) mutate(c Cmd) {
 		}
 		simrt.Count("fault.disk.ext_delete_all", 1)
 	}
+	if c.Kind == "delete" {
+		w.mu.Lock()
+		w.openErrArmed, w.sawMissing = true, false
+		w.mu.Unlock()
+	}
 	simrt.Logf("mutation %s applied", c.Kind)
 }
 
@@ -725,6 +780,12 @@ func (w *lifeWorld) postCrash(n int, img *simfs.FS, db string, deleted []string,
 	T := w.T
 	host := env.NewHost(fmt.Sprintf("sut-r%d", n), "sut")
 	k := w.plan.K
+	if again {
+		// a slow disk and frequent resume writes: the second crash can land in a verification
+		// during which the periodic writer has run
+		k.ResumeWriteInterval = 300 * time.Millisecond
+		img.ReadLat = [2]time.Duration{50 * time.Millisecond, 400 * time.Millisecond}
+	}
 	node, err := env.StartNode(host, img, db, k)
 	if err != nil {
 		simrt.Violate("C05", "restart.db_open", "session does not start on the post-crash state: %v", err)
@@ -746,7 +807,12 @@ func (w *lifeWorld) postCrash(n int, img *simfs.FS, db string, deleted []string,
 		go func() {
 			defer w.crashWG.Done()
 			r := env.R.Fork()
+			// right after the recreation, or a little later (the verification that follows is
+			// still running and a periodic resume write may have happened meanwhile)
 			delay := r.Dur(0, 20*time.Millisecond)
+			if r.Bool() {
+				delay = r.Dur(200*time.Millisecond, 4*time.Second)
+			}
 			for i := 0; i < 20000; i++ {
 				back := false
 				for _, p := range deleted {
@@ -913,6 +979,14 @@ func init() {
 		}
 		if r.Chance(0.1) {
 			lp.WriteErrAt = r.Range(1, 20)
+		}
+		if r.Chance(0.15) {
+			lp.OpenErrAt = r.Range(1, 6*len(lp.Layout.Files))
+		}
+		for _, c := range lp.Cmds {
+			if c.Kind == "delete" && len(lp.Layout.Files) > 1 && r.Chance(0.5) {
+				lp.OpenErrAt = 1 // odd: aimed at the allocation after the deletion
+			}
 		}
 		p.Lifecycle = lp
 	}, Run: func(env *Env, p *Plan) { RunLifecycle(env, p.Lifecycle) }})
